@@ -92,12 +92,28 @@ func Load(opt LoadOptions) *Program {
 	}
 	var normLog []string
 	if !opt.NoInline {
+		if goov := normaliseGoArgs(opt.Repo, opt.Overlay); len(goov) > 0 {
+			merged := map[string][]byte{}
+			for k, v := range opt.Overlay {
+				merged[k] = v
+			}
+			var names []string
+			for k, v := range goov {
+				merged[k] = v
+				names = append(names, strings.TrimPrefix(k, opt.Repo+"/"))
+			}
+			sort.Strings(names)
+			normLog = append(normLog, "go/defer literals with arguments rewritten to captured per-statement variables in: "+strings.Join(names, ", "))
+			opt.Overlay = merged
+			cfg.Overlay = merged
+		}
 		if found, testIdents := hasNewFunctions(opt.Repo, opt.Overlay); found {
 			lcfg := *cfg
 			lcfg.Mode = packages.LoadSyntax
 			lcfg.Tests = false
 			var ov map[string][]byte
-			ov, normLog = Normalise(opt, testIdents, func(overlay map[string][]byte) []*packages.Package {
+			var nl2 []string
+			ov, nl2 = Normalise(opt, testIdents, func(overlay map[string][]byte) []*packages.Package {
 				c := lcfg
 				c.Overlay = overlay
 				pkgs, err := packages.Load(&c, "./...")
@@ -106,6 +122,7 @@ func Load(opt LoadOptions) *Program {
 				}
 				return pkgs
 			})
+			normLog = append(normLog, nl2...)
 			if ov != nil {
 				cfg.Overlay = ov
 			}
